@@ -494,3 +494,50 @@ def rule_header_limit_shared(ctx):
     ctx.holds("HDRLIMIT", "HDRLIMIT:all", "hdf/src/hchunks.c", "%d routines handle the chunk header length; %d reader-side limits" % (readers, n), nontrivial=False)
     ctx.floor("HDRLIMIT", 3, readers, "(routines of hchunks.c that handle the special header length)")
     return n
+
+
+def rule_chunk_coord_in_grid(ctx):
+    """GRIDBOUND (C02, C04): calculate_chunk_num folds a coordinate vector into one chunk number with the per-dimension chunk
+    counts as radix and has no notion of range: a coordinate past the grid along one dimension is the number of a chunk in
+    the next row.  Where the vector is a *parameter* of the routine (the user's origin of SDreadchunk/SDwritechunk/GRreadchunk,
+    the chunk coordinates of SDgetdatainfo) it is compared, element by element, with the `num_chunks` of its dimension before the
+    number is computed; vectors the chunk layer computes itself (seek_chunk_indices) are in range by construction."""
+    from .codec import ast_walk
+    from .facts import calls_in
+    prog = ctx.prog
+    n = 0
+    for f in prog.lib_funcs():
+        ast = f.raw.get("ast")
+        if not ast or not f.rel.endswith("hdf/src/hchunks.c"):
+            continue
+        params = {(p[0] if isinstance(p, (list, tuple)) else p.get("name")) for p in f.params}
+        order = []
+        ast_walk(ast, lambda nd, st: (order.append(nd) if nd[0] in ("s", "if", "while", "for", "switch") else None, True)[1])
+        bounded = set()
+        k = 0
+        for nd in order:
+            exprs = [x for x in (nd[1:4] if nd[0] == "for" else [nd[1]]) if isinstance(x, list) and x and isinstance(x[0], str)]
+            for e in exprs:
+                for x in walk(e, True):
+                    if x[0] == "bin" and x[1] in ("<", ">", "<=", ">="):
+                        sides = [strip(x[2]), strip(x[3])]
+                        if any(any(y[0] == "mem" and y[2] == "num_chunks" for y in walk(s_, True)) for s_ in sides):
+                            for s_ in sides:
+                                if kind(s_) == "idx" and kind(strip(s_[1])) == "var":
+                                    bounded.add(strip(s_[1])[1])
+                for c in calls_in(e, True):
+                    if c[1] != "calculate_chunk_num" or len(c[3]) < 4:
+                        continue
+                    v = strip(c[3][2])
+                    if kind(v) != "var" or v[1] not in params:
+                        continue
+                    k += 1
+                    n += 1
+                    key = "GRIDBOUND:%s#%d" % (f.name, k)
+                    line = nd[-3] if isinstance(nd[-3], int) else f.line
+                    if v[1] in bounded:
+                        ctx.holds("GRIDBOUND", key, f.where(line), "the caller's `%s[]` is compared with num_chunks before the chunk number is computed" % v[1], nontrivial=True)
+                    else:
+                        ctx.violated("GRIDBOUND", key, f.where(line), "the chunk number is computed from the caller's `%s[]` with no comparison against num_chunks before it: a coordinate past the grid selects another chunk, whose data or location is then read, overwritten or reported" % v[1])
+    ctx.floor("GRIDBOUND", 3, n, "(chunk numbers computed from a caller-supplied coordinate vector)")
+    return n
